@@ -98,6 +98,55 @@ def main():
     bad = [ln for ln, _ in lib.unexplained(r)]
     print("%-36s line %5d: %s  unexplained=%s" % ("System.rows weight+1 (cols kept)", j + 1, "REJECTED" if (j + 1) in bad else "MISSED", bad[:6]))
     failed += 0 if (j + 1) in bad else 1
+    # ---- round 2 families: real projectors (tolerance-based), list-mode, Patlak, set-up protocol
+    def family(mode, module, count, cases2):
+        nonlocal failed
+        g = os.path.join(work, mode + ".ndjson")
+        lib.run_driver(exe, [mode, g, work, count], env={"VERIF_SEED": "7"})
+        rr = lib.read_ndjson(g)
+        ok, r, at = lib.validate_trace(module, g, heap="3g")
+        base = [ln for ln, cls in lib.unexplained(r) if cls == "new"]
+        print("%s: good trace of %d lines: unexplained(new)=%s" % (mode, len(rr), base))
+        failed += 1 if base else 0
+        for name, pick, fn in cases2:
+            idx = [i for i, x in enumerate(rr) if pick(x)]
+            if not idx:
+                print("%-36s (no such line)" % name)
+                failed += 1
+                continue
+            i = idx[len(idx) // 2]
+            mm = [dict(x) for x in rr]
+            fn(mm[i])
+            lib.write_ndjson(p, mm)
+            ok, r, at = lib.validate_trace(module, p, heap="3g")
+            bad = [ln for ln, cls in lib.unexplained(r) if cls == "new"]
+            caught = (i + 1) in bad
+            print("%-36s line %5d (%s): %s" % (name, i + 1, rr[i]["e"], "REJECTED" if caught else "MISSED"))
+            failed += 0 if caught else 1
+
+    def scale(field, f):
+        def g(x):
+            v = list(x[field]); j = max(range(len(v)), key=lambda t: abs(v[t])); v[j] = int(v[j] * f) + 1; x[field] = v
+        return g
+    big = lambda e: (lambda x: x["e"] == e and x.get("sub", 0) == -1 and max(map(abs, x.get("out", [0]))) > 5000)
+    family("real", "Trace_PoissonLLReal", 3, [
+        ("real Grad largest element x1.004", big("Grad"), scale("out", 1.004)),
+        ("real Sens largest element x1.004", big("Sens"), scale("out", 1.004)),
+        ("real HessTimes largest element x1.004", lambda x: x["e"] == "HessTimes" and x["sub"] == -1, scale("out", 1.004)),
+        ("real Value x1.002", lambda x: x["e"] == "Value" and x["sub"] == -1, lambda x: x.__setitem__("val", int(x["val"] * 1.002))),
+    ])
+    family("lm", "Trace_PoissonLL", 6, [
+        ("lm HessTimes out[3]-1", lambda x: x["e"] == "HessTimes", bump("out", 3, -1)),
+        ("lm GradPlusSens out[3]+1", lambda x: x["e"] == "GradPlusSens", bump("out")),
+    ])
+    family("patlak", "Trace_PoissonLLPatlak", 6, [
+        ("patlak Grad out2[3]+1", lambda x: x["e"] == "Grad", bump("out2")),
+        ("patlak Sens out1[3]+1", lambda x: x["e"] == "Sens", bump("out1")),
+    ])
+    family("setters", "Trace_PoissonLL", 1, [
+        ("refused request recorded as served", lambda x: x["e"] == "Grad" and x["err"], lambda x: x.__setitem__("err", False)),
+        ("Setter line removed (name unknown)", lambda x: x["e"] == "Setter", lambda x: x.__setitem__("name", "set_nothing")),
+    ])
     shutil.rmtree(work, ignore_errors=True)
     print("%d corruption(s) missed" % failed)
     return 1 if failed else 0
